@@ -120,7 +120,8 @@ Definition entry_v2hdr : N := 5.
 Definition entry_idx : N := 6.
 Definition entry_resume : N := 7.
 (* 8.. : implementation-level entries (no model yet): brskip, reader, loadindex, robs, storage,
-   inspect, replaceroots, extract, resume-huge *)
+   inspect, replaceroots, extract, resume-huge, idxread-big (index.ReadFrom on megabyte inputs,
+   which the extracted model is too slow for in the quick tier) *)
 
 Definition model_outcome (input : val) : tout :=
   let e := vN (vnth 0 input) in
@@ -171,7 +172,7 @@ Definition run_total (input : val) : val :=
 Definition entry_uses_cfr (e : N) : bool :=
   negb ((e =? entry_br) || (e =? entry_carv1) || (e =? entry_version) || (e =? entry_v2hdr) || (e =? entry_idx)).
 Definition entry_uses_idx (e : N) : bool :=
-  (e =? entry_idx) || (e =? 9) || (e =? 10) || (e =? 11) || (e =? 12) || (e =? 13).
+  (e =? entry_idx) || (e =? 9) || (e =? 10) || (e =? 11) || (e =? 12) || (e =? 13) || (e =? 17).
 
 (* class of a failing case, for known findings: a limit above what the Go runtime can allocate at
    all is a class of its own *)
@@ -182,7 +183,7 @@ Definition case_class (input : val) : string :=
                     | 0 => "br" | 1 => "carv1" | 2 => "root" | 3 => "rootload" | 4 => "version"
                     | 5 => "v2hdr" | 6 => "idxread" | 7 => "resume" | 8 => "brskip" | 9 => "reader"
                     | 10 => "loadindex" | 11 => "robs" | 12 => "storage" | 13 => "inspect"
-                    | 14 => "replaceroots" | 15 => "extract" | 16 => "resume-huge"
+                    | 14 => "replaceroots" | 15 => "extract" | 16 => "resume-huge" | 17 => "idxread-big"
                     | _ => "other" end)%N.
 
 Definition prop_total (input obs : val) : val :=
